@@ -143,7 +143,7 @@ def compare(ctx, iface, recipe, wrapper, depth, req_desc, bare, wrapped, count, 
         ctx.mon("inner-error")
         if wrapped["exc"] is None or type(wrapped["exc"]) is not type(bare["exc"]):
             ctx.violation(f"inner-error|different-exception|{iface}|{wrapper}", case, f"bare {bare['exc']!r}; wrapped {wrapped['exc']!r}")
-        elif not bare["body"].startswith(wrapped["body"]):
+        elif not bare["body"].replace(b": ping\n\n", b"").startswith(wrapped["body"].replace(b": ping\n\n", b"")):  # pings: a matter of timing
             ctx.violation(f"inner-error|wrapped-output-not-a-prefix|{iface}|{wrapper}", case, "")
         return
     if wrapped["exc"] is not None:
